@@ -62,6 +62,9 @@ CLAIMS = {
  'C16': ("Thin structural claim on the typed-tool wrapper: the user handler is dominated by applySchema(input, inputResolved, false) succeeding and by a case-sensitive internal/json decode of that function's result into the value passed to it; validation and decode failures return SetError results that cannot reach the handler; setSchema stores the resolved schema on every successful return; StructuredContent is assigned only from applySchema(outJSON, outputResolved, true) after its error test, output failures are errors; the text fallback branches are present; in applySchema defaults precede validation on the same value, every non-trivial return follows Validate, the 'defaults applied' flag is a faithful constant record so the defaulted value is what is returned. "
          "Not decided: validity of values under the schema itself (delegated to jsonschema-go, trusted base).",
          "dominance / guard rules on the wrapper's CFG, value-source rules, constant-flag analysis", "§3 C16"),
+ 'C17': ("Decides the structural part of pagination: every featureSet mutation reaches sortedKeys = nil on all paths (directly, or through a monotone constant flag set in the same block and tested on every path to return); no writer of features/sortedKeys outside featureSet; all()/above() rebuild the index first; above() = binary search + one increment exactly when found (strictly greater); paginateList stops at the (pageSize+1)-th element before appending, returns without cursor when fewer were seen, and encodes the id of the last returned item; every feature-set access (including sets passed to helpers and closures run by changeAndNotify) holds the owner's lock; a decode error of the cursor is mapped to ErrInvalidParams on every failure branch; the client iterator yields every item, copies NextCursor before every further fetch, stops on empty cursor and on error. "
+         "Not decided: gob's behaviour on adversarial bytes (library); exactly-once over all mutation histories as a whole.",
+         "must-pass-through with flag sensitivity, field-writer ownership, interprocedural must-locksets incl. closure-under-lock, structural keyset-shape rules", "§3 C17"),
 }
 
 REASONS = {}
